@@ -521,12 +521,19 @@ class SetAlg:
             # ⋃_{s ∈ S} s  is  ⋃ S
             return ("atom", ("in", e, ("bigunion", self.canon(("setof", comp[3][0][1])))))
         q, gens = self.strip(comp[2]), tuple(comp[3])
+        g2_ = self._drop_conds_implied_by_pairs(gens)
+        if g2_ != gens:
+            return self._member_part(e, ("bigunion", ("comp", "set", comp[2], g2_)))
         for i_, (gp_, gi_, gc_) in enumerate(gens):
             gs_ = self.strip(gi_)
             if gs_[0] == "accum":
                 c_ = accum_as_comp(gs_)
                 if c_ is not None:
                     gs_ = c_
+                elif gs_[1] in ("concat", "union") and len(gs_) > 5 and gs_[5] == ("const", False) and gs_[2] in (("listlit", ()), EMPTY) \
+                        and gs_[3][0] not in ("listlit", "setlit", "tuplelit") and gs_[4]:
+                    # a list / generator extended by a whole collection per iteration (`yield from X(n)`): the union of the X(n)
+                    gs_ = ("bigunion", ("comp", "set", gs_[3], tuple(gs_[4])))
             if gs_[0] == "comp" and gs_[1] in ("list", "gen", "set") and gs_[3] and gp_[0] == "var" \
                     and not (isinstance(gs_[2], tuple) and gs_[2] and gs_[2][0] == "%payload"):
                 # for p in [f(y) for y in Y if c]   =   for y in Y if c, with p := f(y)
@@ -560,6 +567,11 @@ class SetAlg:
                 return self._member_part(e, ("bigunion", ("comp", "set", mapterm(comp[2], fx), new)))
             if gs_[0] == "call" and isinstance(gs_[1], str) and gs_[1].split(".")[-1] == "chain" and not gs_[1].endswith("from_iterable") and len(gs_[2]) >= 2 and not gs_[3]:
                 gs_ = ("concat",) + tuple(gs_[2]) if len(gs_[2]) == 2 else ("concat", gs_[2][0], ("call", gs_[1], tuple(gs_[2][1:]), ()))
+            if gs_[0] in ("listlit", "tuplelit") and len(gs_[1]) >= 2 and all(x[0] == "star" for x in gs_[1]):
+                # [*A, *B]: A followed by B
+                gs_ = ("concat", gs_[1][0][1], gs_[1][1][1] if len(gs_[1]) == 2 else (gs_[0], tuple(gs_[1][1:])))
+            if gs_[0] == "union" and len(gs_) >= 3:
+                gs_ = ("concat", gs_[1], gs_[2] if len(gs_) == 3 else ("union",) + tuple(gs_[2:]))
             if gs_[0] == "concat" and len(gs_) == 3:
                 # for p in A followed by B: the elements drawn from A together with those drawn from B
                 return f_or(*[self._member_part(e, ("bigunion", ("comp", "set", comp[2], gens[:i_] + ((gp_, part_, gc_),) + gens[i_ + 1:]))) for part_ in gs_[1:]])
@@ -609,6 +621,36 @@ class SetAlg:
         cg = tuple((pat, self.canon(("setof", it)), ((self._canon_cond(conds[0] if len(conds) == 1 else ("and",) + tuple(conds)),) if conds else ()))
                    for pat, it, conds in gens)
         return ("atom", ("in", e, ("bigunion", ("comp", "set", self.canon(("setof", q)) if self.is_setexpr(q) else self.canon(q), cg))))
+
+    def _drop_conds_implied_by_pairs(self, gens: tuple) -> tuple:
+        """`for n in V if len(X(n)) >= 2 for a, b in combinations(X(n), 2)`: the filter only skips iterations in which the inner generator
+        has nothing to give anyway (a pair drawn from X proves |X| >= 2) -- it is dropped."""
+        out = list(gens)
+        changed = False
+        for k, (_p, it, _c) in enumerate(gens):
+            src = self.strip(it) if it[0] != "call" else it
+            if not (src[0] == "call" and isinstance(src[1], str) and src[1].split(".")[-1] in ("combinations", "permutations") and len(src[2]) == 2
+                    and src[2][1][0] == "const" and isinstance(src[2][1][1], int) and src[2][1][1] >= 2):
+                continue
+            X = src[2][0]
+            try:
+                ax = f_and(self.cond(("truth", X)), f_not(("atom", ("len1", self.canon_set(X)))))
+            except Exception:  # noqa: BLE001
+                continue
+            for j in range(k):
+                pj, ij, cj = out[j]
+                kept = []
+                for c in cj:
+                    try:
+                        implied = satisfy(f_and(ax, f_not(self.cond(c)))) is None
+                    except Exception:  # noqa: BLE001
+                        implied = False
+                    if implied:
+                        changed = True
+                    else:
+                        kept.append(c)
+                out[j] = (pj, ij, tuple(kept))
+        return tuple(out) if changed else gens
 
     def _hoist_conds(self, gens: tuple) -> tuple:
         """Every filter is attached to the first generator after which all of its variables are bound (filters do not care where they stand)."""
